@@ -88,11 +88,16 @@ const (
 	fURLRegex    // url.RegexFilter: modifier + else, condition on the (exchange's) request URL
 	fHeaderRegex // header.RegexFilter: modifier only, condition on the (exchange's) REQUEST header for both kinds
 	fPort        // port.Filter: modifier only, condition on the port of the (exchange's) request URL
+	fQSAny       // querystring.Filter configured with a name only: holds iff the parameter is present, whatever its value(s)
 	nFilters
 )
 
 var filterName = [nFilters]string{"url.Filter", "header.Filter", "querystring.Filter", "method.Filter", "cookie.Filter",
-	"url.RegexFilter", "header.RegexFilter", "port.Filter"}
+	"url.RegexFilter", "header.RegexFilter", "port.Filter", "querystring.Filter"}
+
+// filterShape: the name used in shapes / signatures (differs from the JSON name only for configuration variants)
+var filterShape = [nFilters]string{"url.Filter", "header.Filter", "querystring.Filter", "method.Filter", "cookie.Filter",
+	"url.RegexFilter", "header.RegexFilter", "port.Filter", "querystring.Filter~nameonly"}
 var filterCond = [nFilters]string{
 	`"host":"h.example","path":"/hit"`,
 	`"name":"X-Cond","value":"yes"`,
@@ -102,10 +107,11 @@ var filterCond = [nFilters]string{
 	`"regex":"[?&]r=1(&|$)"`,
 	`"header":"X-Re","regex":"^ye+s$"`,
 	`"port":8080`,
+	`"name":"z"`,
 }
 
 // filterElse: the filter type takes an "else" branch
-var filterElse = [nFilters]bool{true, true, true, true, true, true, false, false}
+var filterElse = [nFilters]bool{true, true, true, true, true, true, false, false, true}
 
 const (
 	scAbsent = iota
@@ -148,16 +154,19 @@ func scopeMask(nd *node) int {
 }
 
 type node struct {
-	Kind  int     `json:"kind"`
-	FType int     `json:"ftype,omitempty"`
-	Scope int     `json:"scope,omitempty"`
-	Agg   bool    `json:"agg,omitempty"`
-	Prio  []int   `json:"prio,omitempty"`
-	Kids  []*node `json:"kids,omitempty"`
-	Pos   int     `json:"pos"` // preorder index
-	ID    int     `json:"id"`  // base + Pos: the value the node writes / the error it returns
-	start int
-	end   int
+	Kind  int   `json:"kind"`
+	FType int   `json:"ftype,omitempty"`
+	Scope int   `json:"scope,omitempty"`
+	Agg   bool  `json:"agg,omitempty"`
+	Prio  []int `json:"prio,omitempty"`
+	// PrioSp (audit): how the priority of entry i is spelled: 0 `"priority":<n>`, 1 key omitted, 2 `"priority":null`
+	// (1 and 2 only where the priority is 0); nil: all explicit
+	PrioSp []int   `json:"priosp,omitempty"`
+	Kids   []*node `json:"kids,omitempty"`
+	Pos    int     `json:"pos"` // preorder index
+	ID     int     `json:"id"`  // base + Pos: the value the node writes / the error it returns
+	start  int
+	end    int
 }
 
 type alphabet struct {
@@ -369,6 +378,7 @@ func number(nd *node, base int) int {
 func clone(nd *node) *node {
 	c := *nd
 	c.Prio = append([]int(nil), nd.Prio...)
+	c.PrioSp = append([]int(nil), nd.PrioSp...)
 	c.Kids = make([]*node, len(nd.Kids))
 	for i, k := range nd.Kids {
 		c.Kids[i] = clone(k)
@@ -422,7 +432,7 @@ func kindName(nd *node) string {
 	case kPrio:
 		return "prio"
 	}
-	return filterName[nd.FType]
+	return filterShape[nd.FType]
 }
 
 func shape(nd *node) string {
@@ -438,7 +448,14 @@ func shape(nd *node) string {
 					sb.WriteByte(',')
 				}
 				if x.Kind == kPrio {
-					sb.WriteString(strconv.Itoa(x.Prio[i]))
+					switch {
+					case len(x.PrioSp) > i && x.PrioSp[i] == 1:
+						sb.WriteString("omitted")
+					case len(x.PrioSp) > i && x.PrioSp[i] == 2:
+						sb.WriteString("null")
+					default:
+						sb.WriteString(strconv.Itoa(x.Prio[i]))
+					}
 					sb.WriteByte(':')
 				}
 				rec(k)
@@ -578,13 +595,21 @@ func (r *renderer) node(nd *node) {
 			if i > 0 {
 				r.b = append(r.b, ',')
 			}
-			r.b = append(r.b, `{"priority":`...)
-			if r.m.kind == mutPrio && r.m.at == nd.Pos && i == 0 {
-				r.b = append(r.b, r.m.text...)
-			} else {
-				r.b = strconv.AppendInt(r.b, int64(nd.Prio[i]), 10)
+			sp := 0
+			if len(nd.PrioSp) > i && !(r.m.kind == mutPrio && r.m.at == nd.Pos) {
+				sp = nd.PrioSp[i]
 			}
-			r.b = append(r.b, `,"modifier":`...)
+			switch {
+			case sp == 1:
+				r.b = append(r.b, `{`...)
+			case sp == 2:
+				r.b = append(r.b, `{"priority":null,`...)
+			case r.m.kind == mutPrio && r.m.at == nd.Pos && i == 0:
+				r.b = append(append(append(r.b, `{"priority":`...), r.m.text...), ',')
+			default:
+				r.b = append(strconv.AppendInt(append(r.b, `{"priority":`...), int64(nd.Prio[i]), 10), ',')
+			}
+			r.b = append(r.b, `"modifier":`...)
 			r.node(k)
 			r.b = append(r.b, '}')
 		}
@@ -615,6 +640,8 @@ func render(nd *node, m mutation) []byte {
 type msg struct {
 	Kind int            `json:"kind"` // 0 request, 1 response
 	Cond [nFilters]bool `json:"cond"` // truth of the url, header, querystring, method, cookie conditions for this message
+	// Multi > 0: the query parameter, the X-Cond header and the cookie named in the conditions carry two values
+	Multi int `json:"multi,omitempty"`
 }
 
 func (m msg) String() string {
@@ -625,13 +652,21 @@ func (m msg) String() string {
 	var on []string
 	for i, c := range m.Cond {
 		if c {
-			on = append(on, strings.TrimSuffix(filterName[i], ".Filter"))
+			on = append(on, strings.Replace(filterShape[i], ".Filter", "", 1))
 		}
 	}
-	return k + "{true:" + strings.Join(on, ",") + "}"
+	return k + "{true:" + strings.Join(on, ",") + "}" + [...]string{"", "+multivalue(match later)", "+multivalue(match first)"}[m.Multi]
 }
 
-var msgsFor, msgsReduced [1 << nFilters][]msg
+// multiMask: the filters whose condition reads a multi-valued source AND whose documentation says that the
+// condition holds when any value matches (querystring.Matcher: "contains a querystring param that matches";
+// header.Matcher: "contains a header that matches the provided name and value"; cookie.Matcher: "contains a cookie
+// that matches"). header.RegexFilter ("iff the value of header matches regex") is silent about repeated lines.
+const multiMask = 1<<fQS | 1<<fHeader | 1<<fCookie | 1<<fQSAny
+
+// msgsFor: single-valued sources only; msgsMulti: msgsFor followed by the same assignments with every multi-valued
+// source of multiMask carrying two values (Multi 1: the matching one last, Multi 2: the matching one first).
+var msgsFor, msgsReduced, msgsMulti [1 << nFilters][]msg
 
 func init() {
 	for mask := 0; mask < 1<<nFilters; mask++ {
@@ -651,16 +686,46 @@ func init() {
 				}
 			}
 		}
+		msgsMulti[mask] = msgsFor[mask]
+		if mask&multiMask != 0 {
+			msgsMulti[mask] = append([]msg{}, msgsFor[mask]...)
+			for mode := 1; mode <= 2; mode++ {
+				for _, m := range msgsFor[mask] {
+					m.Multi = mode
+					msgsMulti[mask] = append(msgsMulti[mask], m)
+				}
+			}
+		}
 	}
 }
 
-func buildRequest(c [nFilters]bool, flip bool) *http.Request {
-	path, q, meth, host, re := "/miss", "q=0&p=2", "GET", "h.example", "no"
+// two picks the spelling of a two-valued source: hit says whether one of the values is the matching one.
+func two(multi int, hit bool, match, miss1, miss2 string) []string {
+	switch {
+	case multi == 0 && hit:
+		return []string{match}
+	case multi == 0:
+		return []string{miss1}
+	case !hit:
+		return []string{miss1, miss2}
+	case multi == 1:
+		return []string{miss1, match}
+	}
+	return []string{match, miss1}
+}
+
+func buildRequest(c [nFilters]bool, flip bool, multi int) *http.Request {
+	path, q, meth, host, re := "/miss", "q=0", "GET", "h.example", "no"
 	if c[fURL] {
 		path = "/hit"
 	}
-	if c[fQS] {
-		q = "q=0&p=1"
+	for _, v := range two(multi, c[fQS], "1", "2", "3") {
+		q += "&p=" + v
+	}
+	if c[fQSAny] { // present (with an empty first value when two-valued); false: absent
+		for _, v := range two(multi, true, "7", "", "9")[:1+min(multi, 1)] {
+			q += "&z=" + v
+		}
 	}
 	if c[fURLRegex] {
 		q += "&r=1"
@@ -680,12 +745,9 @@ func buildRequest(c [nFilters]bool, flip bool) *http.Request {
 	if flip {
 		hv, cv = !hv, !cv
 	}
-	h := http.Header{"X-Cond": {"no"}, "Cookie": {"d=1; e=2"}, "X-Re": {re}}
-	if hv {
-		h["X-Cond"] = []string{"yes"}
-	}
-	if cv {
-		h["Cookie"] = []string{"d=1; c=1"}
+	h := http.Header{"X-Cond": two(multi, hv, "yes", "no", "nope"), "Cookie": {"d=1; e=2"}, "X-Re": {re}}
+	if cv || multi > 0 {
+		h["Cookie"] = []string{"d=1; " + strings.Join(two(multi, cv, "c=1", "c=0", "c=2"), "; ")}
 	}
 	return &http.Request{Method: meth, URL: &url.URL{Scheme: "http", Host: host, Path: path, RawQuery: q},
 		Proto: "HTTP/1.1", ProtoMajor: 1, ProtoMinor: 1, Host: host, Header: h}
@@ -694,19 +756,16 @@ func buildRequest(c [nFilters]bool, flip bool) *http.Request {
 // A response message: url, query and method conditions refer to the exchange's request; header and cookie
 // conditions to the response's own header / Set-Cookie (the request of the exchange carries the opposite values,
 // so an implementation looking at the wrong message is caught).
-func buildResponse(c [nFilters]bool) *http.Response {
-	h := http.Header{"X-Cond": {"no"}, "Set-Cookie": {"d=1"}, "X-Re": {"yes"}}
-	if c[fHeader] {
-		h["X-Cond"] = []string{"yes"}
-	}
+func buildResponse(c [nFilters]bool, multi int) *http.Response {
+	h := http.Header{"X-Cond": two(multi, c[fHeader], "yes", "no", "nope"), "Set-Cookie": {"d=1"}, "X-Re": {"yes"}}
 	if c[fHeaderRegex] {
 		h["X-Re"] = []string{"no"} // the response's own header carries the opposite of the exchange's request header
 	}
-	if c[fCookie] {
-		h["Set-Cookie"] = []string{"d=1", "c=1; Path=/"}
+	if c[fCookie] || multi > 0 {
+		h["Set-Cookie"] = append(h["Set-Cookie"], two(multi, c[fCookie], "c=1; Path=/", "c=0", "c=2")...)
 	}
 	return &http.Response{Status: "200 OK", StatusCode: 200, Proto: "HTTP/1.1", ProtoMajor: 1, ProtoMinor: 1, Header: h,
-		Request: buildRequest(c, true)}
+		Request: buildRequest(c, true, multi)}
 }
 
 // ---------------------------------------------------------------------------------------------------------
@@ -883,7 +942,7 @@ func observe(reqmod martian.RequestModifier, resmod martian.ResponseModifier, m 
 	var err error
 	var h http.Header
 	if m.Kind == 0 {
-		req := buildRequest(m.Cond, false)
+		req := buildRequest(m.Cond, false, m.Multi)
 		if reqmod != nil {
 			*calls++
 			err = reqmod.ModifyRequest(req)
@@ -891,7 +950,7 @@ func observe(reqmod martian.RequestModifier, resmod martian.ResponseModifier, m 
 		h = req.Header
 		o.Path = req.URL.Path
 	} else {
-		res := buildResponse(m.Cond)
+		res := buildResponse(m.Cond, m.Multi)
 		if resmod != nil {
 			*calls++
 			err = resmod.ModifyResponse(res)
@@ -1029,6 +1088,9 @@ func candidates(t *node) []*node {
 					y.Kids = append(append([]*node{}, y.Kids[:i]...), y.Kids[i+1:]...)
 					if y.Kind == kPrio {
 						y.Prio = append(append([]int{}, y.Prio[:i]...), y.Prio[i+1:]...)
+						if len(y.PrioSp) > i {
+							y.PrioSp = append(append([]int{}, y.PrioSp[:i]...), y.PrioSp[i+1:]...)
+						}
 					}
 					return y
 				})
@@ -1049,6 +1111,12 @@ func candidates(t *node) []*node {
 		}
 		if x.Agg {
 			edit(pos, func(y, _ *node, _ int) *node { y.Agg = false; return y })
+		}
+		for i, sp := range x.PrioSp {
+			if sp != 0 {
+				i := i
+				edit(pos, func(y, _ *node, _ int) *node { y.PrioSp[i] = 0; return y })
+			}
 		}
 		anyPrio := false
 		for i, p := range x.Prio {
@@ -1085,7 +1153,7 @@ func failingOn(t *node, kind int, sym string, calls *int64) (string, msg, bool) 
 	if err != nil {
 		return "rejected_valid", msg{Kind: kind}, sameClass("rejected_valid", sym)
 	}
-	for _, m := range msgsFor[filterMask(t)] {
+	for _, m := range msgsMulti[filterMask(t)] { // single-valued messages first
 		if m.Kind != kind {
 			continue
 		}
@@ -1156,14 +1224,18 @@ func reportEval(root *node, m msg, sym string, c *counters) {
 	t, mm, s := minimise(root, m, sym, &c.calls)
 	_, exp, obs := failure(t, mm, &c.calls)
 	doc := string(render(t, mutation{}))
-	sig := "eval:" + shape(t) + ":" + kindStr(mm) + ":" + s
+	kind := kindStr(mm)
+	if mm.Multi > 0 {
+		kind += "+multivalue" // fails only when a condition's source carries several values
+	}
+	sig := "eval:" + shape(t) + ":" + kind + ":" + s
 	desc := fmt.Sprintf("config %s on %s: statement demands trace=%v errors=%v yes=%d path=%s status=%d; implementation gave trace=%v errors=%v yes=%d path=%s status=%d %s (minimised from %s)",
 		doc, mm, exp.Trace, exp.Errs, exp.Yes, exp.Path, exp.Status, obs.Trace, obs.Errs, obs.Yes, obs.Path, obs.Status, obs.Extra, shape(root))
 	rep.Violate(sig, desc, replay{Part: "eval", Config: doc, Tree: t, Msg: &mm, Expected: &exp, Observed: &obs})
 }
 
 // evalTree: part 1 for one tree.
-func evalTree(root *node, c *counters, trackBehaviour bool) {
+func evalTree(root *node, c *counters, trackBehaviour, multi bool) {
 	n := number(root, 0)
 	doc := render(root, mutation{})
 	c.trees++
@@ -1179,6 +1251,9 @@ func evalTree(root *node, c *counters, trackBehaviour bool) {
 	}
 	reqmod, resmod := r.RequestModifier(), r.ResponseModifier()
 	msgs := msgsFor[filterMask(root)]
+	if multi {
+		msgs = msgsMulti[filterMask(root)]
+	}
 	var first uint64
 	varies, nonEmpty := false, false
 	bh := fnv.New64a()
@@ -1514,6 +1589,7 @@ type phase struct {
 	a     *alphabet
 	sizes []int
 	ext   bool // handler: with the extended rejection variants and the non-POST / failing-body requests
+	multi bool // eval: additionally the messages whose multi-valued condition sources carry two values
 }
 
 func runPhase(p phase, total *counters, mu *sync.Mutex, genCounts map[string]int64) {
@@ -1537,7 +1613,7 @@ func runPhase(p phase, total *counters, mu *sync.Mutex, genCounts map[string]int
 					}
 					switch p.part {
 					case "eval":
-						evalTree(t, c, p.a == alphaFull && n <= 3)
+						evalTree(t, c, p.a == alphaFull && n <= 3, p.multi)
 					case "handler":
 						hw.tree(t)
 					case "prefix":
@@ -1673,45 +1749,49 @@ func main() {
 	rep = lib.NewReport("C12", "model_checking")
 	var phases []phase
 	var families []family
+	entryRejectWidth := 0
 	bounds := ""
 	if rep.Tier == "thorough" {
 		phases = []phase{
-			{"eval", alphaFull, []int{1, 2, 3, 4}, false},
-			{"eval", alphaMid, []int{5}, false},
-			{"eval", alphaTiny, []int{6}, false},
-			{"prefix", alphaFull, []int{1, 2}, false},
-			{"handler", alphaFull, []int{1, 2}, true},
-			{"handler", alphaFull, []int{3}, false},
-			{"handler", alphaSmall, []int{4}, false},
-			{"handler", alphaMid, []int{3}, true},
-			{"eval", alphaExt, []int{1, 2, 3}, false},
-			{"eval", alphaExtMid, []int{4}, false},
-			{"prefix", alphaExt, []int{1, 2}, false},
-			{"handler", alphaExt, []int{1, 2}, true},
-			{"handler", alphaExtMid, []int{3}, true},
-			{"spell", alphaFull, []int{1, 2, 3}, false},
-			{"spell", alphaExt, []int{1, 2}, false},
+			{"eval", alphaFull, []int{1, 2, 3}, false, true},
+			{"eval", alphaFull, []int{4}, false, false},
+			{"eval", alphaMid, []int{5}, false, false},
+			{"eval", alphaTiny, []int{6}, false, false},
+			{"prefix", alphaFull, []int{1, 2}, false, false},
+			{"handler", alphaFull, []int{1, 2}, true, false},
+			{"handler", alphaFull, []int{3}, false, false},
+			{"handler", alphaSmall, []int{4}, false, false},
+			{"handler", alphaMid, []int{3}, true, false},
+			{"eval", alphaExt, []int{1, 2, 3}, false, true},
+			{"eval", alphaExtMid, []int{4}, false, false},
+			{"prefix", alphaExt, []int{1, 2}, false, false},
+			{"handler", alphaExt, []int{1, 2}, true, false},
+			{"handler", alphaExtMid, []int{3}, true, false},
+			{"spell", alphaFull, []int{1, 2, 3}, false, false},
+			{"spell", alphaExt, []int{1, 2}, false, false},
 		}
-		families = []family{prioValues("prio_values", extremePrios, 4, true), prioValues("prio_values_probes", extremePrios, 5, false), prioWide(8), fifoWide(12)}
+		families = []family{prioValues("prio_values", extremePrios, 4, true), prioValues("prio_values_probes", extremePrios, 5, false), prioWide(8), fifoWide(12), prioEntries(5)}
+		entryRejectWidth = 4
 		bounds = "evaluation: all trees with <=4 nodes over the full alphabet, all trees with exactly 5 nodes over the mid alphabet, exactly 6 nodes over the tiny alphabet (each reduced alphabet is a subset of the next larger one, so their smaller sizes are already covered); rejection/reconfiguration through the handler: full alphabet <=3 nodes, small alphabet 4 nodes; all document prefixes for <=2 nodes" +
-			"; audit extensions: evaluation of all trees with <=3 nodes over the ext alphabet and exactly 4 nodes over the extmid alphabet (remaining registered filters), flat priority groups with <=4 children (probe or erroring leaf) and <=5 children (probes) over 8 extreme int64 priorities, flat priority groups of width <=8 over 3 levels, flat fifo groups of width <=12; handler: ext alphabet <=2 nodes, extmid 3 nodes; scope spellings (null for absent, duplicated entries) at every node of full <=3 and ext <=2; the extended rejection variants and the non-POST / failing-body requests on full <=2, mid 3, ext <=2, extmid 3; prefixes of ext documents with <=2 nodes"
+			"; audit extensions: evaluation of all trees with <=3 nodes over the ext alphabet and exactly 4 nodes over the extmid alphabet (remaining registered filters), flat priority groups with <=4 children (probe or erroring leaf) and <=5 children (probes) over 8 extreme int64 priorities, flat priority groups of width <=8 over 3 levels, flat fifo groups of width <=12; handler: ext alphabet <=2 nodes, extmid 3 nodes; scope spellings (null for absent, duplicated entries) at every node of full <=3 and ext <=2; two-valued condition sources (match first / later / none) on full <=3 and ext <=3; priority entry spellings (key omitted, null) on flat groups of width 2..5, entries without modifier on width 2..4; the extended rejection variants and the non-POST / failing-body requests on full <=2, mid 3, ext <=2, extmid 3; prefixes of ext documents with <=2 nodes"
 	} else {
 		phases = []phase{
-			{"eval", alphaFull, []int{1, 2, 3}, false},
-			{"eval", alphaMid, []int{4}, false},
-			{"eval", alphaSmall, []int{5}, false},
-			{"prefix", alphaFull, []int{1, 2}, false},
-			{"handler", alphaFull, []int{1, 2}, true},
-			{"handler", alphaMid, []int{3}, false},
-			{"eval", alphaExt, []int{1, 2, 3}, false},
-			{"handler", alphaExt, []int{1}, true},
-			{"handler", alphaExtMid, []int{2}, true},
-			{"spell", alphaFull, []int{1, 2}, false},
-			{"spell", alphaMid, []int{3}, false},
+			{"eval", alphaFull, []int{1, 2, 3}, false, true},
+			{"eval", alphaMid, []int{4}, false, false},
+			{"eval", alphaSmall, []int{5}, false, false},
+			{"prefix", alphaFull, []int{1, 2}, false, false},
+			{"handler", alphaFull, []int{1, 2}, true, false},
+			{"handler", alphaMid, []int{3}, false, false},
+			{"eval", alphaExt, []int{1, 2, 3}, false, true},
+			{"handler", alphaExt, []int{1}, true, false},
+			{"handler", alphaExtMid, []int{2}, true, false},
+			{"spell", alphaFull, []int{1, 2}, false, false},
+			{"spell", alphaMid, []int{3}, false, false},
 		}
-		families = []family{prioValues("prio_values", extremePrios, 3, true), prioWide(6), fifoWide(9)}
+		families = []family{prioValues("prio_values", extremePrios, 3, true), prioWide(6), fifoWide(9), prioEntries(4)}
+		entryRejectWidth = 3
 		bounds = "evaluation: all trees with <=3 nodes over the full alphabet, exactly 4 nodes over the mid alphabet and exactly 5 nodes over the small alphabet (each reduced alphabet is a subset of the next larger one); rejection/reconfiguration through the handler: full alphabet <=2 nodes, mid alphabet 3 nodes; all document prefixes for <=2 nodes" +
-			"; audit extensions: evaluation of all trees with <=3 nodes over the ext alphabet (remaining registered filters), flat priority groups with <=3 children over 8 extreme int64 priorities, flat priority groups of width <=6 over 3 levels, flat fifo groups of width <=9; handler: ext alphabet 1 node, extmid 2 nodes; scope spellings (null for absent, duplicated entries) at every node of full <=2 and mid 3; the extended rejection variants and the non-POST / failing-body requests on full <=2, ext 1, extmid 2"
+			"; audit extensions: evaluation of all trees with <=3 nodes over the ext alphabet (remaining registered filters), flat priority groups with <=3 children over 8 extreme int64 priorities, flat priority groups of width <=6 over 3 levels, flat fifo groups of width <=9; handler: ext alphabet 1 node, extmid 2 nodes; scope spellings (null for absent, duplicated entries) at every node of full <=2 and mid 3; two-valued condition sources (match first / later / none) on full <=3 and ext <=3; priority entry spellings (key omitted, null) on flat groups of width 2..4, entries without modifier on width 2..3; the extended rejection variants and the non-POST / failing-body requests on full <=2, ext 1, extmid 2"
 	}
 	total := &counters{behaviours: map[uint64]struct{}{}, perPhase: map[string]int64{}}
 	var mu sync.Mutex
@@ -1739,6 +1819,9 @@ func main() {
 		t0, c0 := time.Now(), cpuSeconds()
 		runFamily(fam, total, &mu, genCounts)
 		phaseCost = append(phaseCost, fmt.Sprintf("eval:flat:%s wall=%.1fs cpu=%.1fs", fam.name, time.Since(t0).Seconds(), cpuSeconds()-c0))
+	}
+	if only("handler:flat:prio_entry_rejects") {
+		prioEntryRejects(entryRejectWidth, total)
 	}
 	rep.Coverage["phase_cost"] = phaseCost
 	flushAccepted()
@@ -1778,6 +1861,8 @@ func main() {
 		"for a response, the url, querystring and method conditions refer to the request of the exchange, the header and cookie conditions to the response's own header / Set-Cookie",
 		"url.RegexFilter and port.Filter conditions refer to the URL of the (exchange's) request; header.RegexFilter's condition refers to the header of the exchange's REQUEST for requests and responses alike (its documentation says so); header.RegexFilter and port.Filter take no else branch (none is generated for them)",
 		"\"scope\":null means the same as an absent scope; a scope list that repeats a kind names that kind once",
+		"a priority group entry without a \"priority\" key, or with \"priority\":null, has priority 0; an entry that names no modifier makes the configuration malformed",
+		"where a condition's source is multi-valued the condition holds iff any value matches, for the filters whose documentation says so (querystring.Filter: any value of the parameter, or mere presence when only a name is configured; header.Filter: any header line equal to the value; cookie.Filter: any cookie of that name and value); comma lists inside one header line, repeated lines for header.RegexFilter and empty configured values of header/cookie filters are not generated (documentation silent)",
 		"a node object names exactly one modifier (the single-key rule of parse.FromJSON): two keys, no key, or a JSON value that is not an object count as malformed; scope names are exactly the lower-case strings \"request\" and \"response\"; a priority is a JSON integer in the int64 range; aggregateErrors is a JSON boolean",
 		"a request to the configuration endpoint that is answered with a non-2xx status is a rejected reconfiguration (nothing may change); one answered 2xx must put the configuration it carries fully in force; a POST whose body could not be read to the end can never be accepted",
 		"errors are identified by their text (the erroring leaf's text carries its node id); a MultiError is read through Errors(), nested ones recursively",
